@@ -16,7 +16,7 @@ PROP = {
         "Multi.C02.elemit_laws",
         "Multi.C02.range_index",
     ],
-    "harnesses": [views_harness(["c02"], 4800, 320000)],
+    "harnesses": [views_harness(["c02"], 4800, 320000, modes_thorough=["c02", "exhaustive"])],
     "trusted_base": TRUSTED_COMMON + ["const vs mutable iterator types are not distinguished in the model: 'const and mutable iterators to one position compare equal' is observed by the harness on the real iterators only"],
     "assumptions": ["index arithmetic does not overflow ptrdiff_t", "element type int, raw pointers (other pointer types: C11)",
                     "begin()/end() laws need a non-zero leading stride: a view obtained by partitioned/chunked/halved of an EMPTY view has stride 0, iterator subtraction divides by it (asserted precondition in the library); such views are reported as 'iter stride0' by both sides and skipped"],
